@@ -168,6 +168,8 @@ type c15Wire struct {
 	hdrs   map[string][]c15KV
 	fills  map[string]string
 	bodies map[uint32][]byte
+	free   bool              // recorded real traffic: header fields are whatever the peers sent
+	sidOf  map[string]uint32 // free: value of the x-call header -> stream id
 }
 
 type c15Opts struct {
@@ -423,7 +425,24 @@ type c15Run struct {
 	PanicFn  string         `json:"panic_fn,omitempty"`
 	BrokenAt map[string]int `json:"broken_at,omitempty"`
 	Early    []string       `json:"early,omitempty"` // retry hold-back violated
+	NotHeld  []string       `json:"not_held,omitempty"` // timer events of the scenario for which nothing was held back
 	ReqStart []string       `json:"reqstart,omitempty"` // headers listed by the RequestStart event differ from the wire
+}
+
+func c15CodeName(c http2.ErrCode) string {
+	switch c {
+	case http2.ErrCodeCancel:
+		return "cancel"
+	case http2.ErrCodeRefusedStream:
+		return "refused"
+	case http2.ErrCodeInternal:
+		return "internal"
+	case http2.ErrCodeNo:
+		return "no"
+	case http2.ErrCodeProtocol:
+		return "proto"
+	}
+	return c.String()
 }
 
 func c15ErrClass(err error, s int, endErr error) string {
@@ -432,10 +451,7 @@ func c15ErrClass(err error, s int, endErr error) string {
 	}
 	var se http2.StreamError
 	if errors.As(err, &se) {
-		c := map[http2.ErrCode]string{http2.ErrCodeCancel: "cancel", http2.ErrCodeRefusedStream: "refused", http2.ErrCodeInternal: "internal"}[se.Code]
-		if c == "" {
-			c = se.Code.String()
-		}
+		c := c15CodeName(se.Code)
 		if int(se.StreamID) != s {
 			c += fmt.Sprintf("@%d", se.StreamID)
 		}
@@ -443,25 +459,22 @@ func c15ErrClass(err error, s int, endErr error) string {
 	}
 	var ce http2.ConnectionError
 	if errors.As(err, &ce) {
-		c := map[http2.ErrCode]string{http2.ErrCodeNo: "no", http2.ErrCodeProtocol: "proto"}[http2.ErrCode(ce)]
-		if c == "" {
-			c = http2.ErrCode(ce).String()
-		}
-		return "goaway:" + c
-	}
-	if endErr != nil && errors.Is(err, endErr) {
-		if strings.HasPrefix(err.Error(), "socket closed") {
-			return "end:close"
-		}
-		return "end:" + endErr.Error()
+		return "goaway:" + c15CodeName(http2.ErrCode(ce))
 	}
 	if strings.HasPrefix(err.Error(), "socket closed") {
 		return "end:close"
 	}
+	var ee *c15EndErr
+	if errors.As(endErr, &ee) && (errors.Is(err, endErr) || (ee.cause != nil && errors.Is(err, ee.cause))) {
+		return "end:" + ee.kind
+	}
 	return "other:" + err.Error()
 }
 
-type c15EndErr struct{ kind string }
+type c15EndErr struct {
+	kind  string
+	cause error // recorded traffic: the error value the wrapped conn returned at the end
+}
 
 func (e *c15EndErr) Error() string { return e.kind }
 
@@ -474,6 +487,9 @@ func c15Abstract(t *Trace, wires map[string]*c15Wire, endErr error, problems, re
 		return a
 	}
 	a.S, _ = strconv.Atoi(t.Request.Header.Get("X-Sid"))
+	if wires["req"].free {
+		a.S = int(wires["req"].sidOf[t.Request.Header.Get("X-Call")])
+	}
 	s := uint32(a.S)
 	sid := strconv.Itoa(a.S)
 	a.Err = c15ErrClass(t.Err, a.S, endErr)
@@ -486,7 +502,11 @@ func c15Abstract(t *Trace, wires map[string]*c15Wire, endErr error, problems, re
 	if !reflect.DeepEqual(t.Request.Header, wantReq) {
 		prob("s=%s request headers: got %v want %v", sid, t.Request.Header, wantReq)
 	}
-	if t.Request.Method != "POST" || t.Request.URL == nil || t.Request.URL.Path != "/verif.Svc"+sid+"/Method"+sid ||
+	if wires["req"].free {
+		if t.Request.Method != "POST" || t.Request.URL == nil || t.Request.URL.Path != "/verif/call" {
+			prob("s=%s request line: got %s %v", sid, t.Request.Method, t.Request.URL)
+		}
+	} else if t.Request.Method != "POST" || t.Request.URL == nil || t.Request.URL.Path != "/verif.Svc"+sid+"/Method"+sid ||
 		t.Request.URL.RawQuery != "q="+sid || t.Request.URL.Host != "host"+sid+".test" || t.Request.URL.Scheme != "http" {
 		prob("s=%s request line: got %s %v", sid, t.Request.Method, t.Request.URL)
 	}
@@ -600,10 +620,35 @@ func c15PanicFn(stack string) string {
 	return "?"
 }
 
+// one Read or Write call moving exactly chunk; false if transparency was violated
+func c15OneCall(conn net.Conn, inner *c15Conn, read bool, chunk []byte, rnd *rand.Rand, ci int, run *c15Run) bool {
+	if read {
+		inner.rd, inner.rdErr = append([]byte(nil), chunk...), nil
+		buf := make([]byte, len(chunk)+rnd.IntN(9))
+		for i := range buf {
+			buf[i] = 0xEE
+		}
+		n, err := conn.Read(buf)
+		if n != len(chunk) || err != nil || !bytes.Equal(buf[:n], chunk) {
+			run.Transp = append(run.Transp, fmt.Sprintf("call %d (piece) Read: n=%d err=%v want n=%d", ci, n, err, len(chunk)))
+			return false
+		}
+		return true
+	}
+	arg := append([]byte(nil), chunk...)
+	n, err := conn.Write(arg)
+	if n != len(chunk) || err != nil || !bytes.Equal(inner.wr, chunk) || !bytes.Equal(arg, chunk) {
+		run.Transp = append(run.Transp, fmt.Sprintf("call %d (piece) Write: n=%d err=%v inner got %d bytes want %d", ci, n, err, len(inner.wr), len(chunk)))
+		return false
+	}
+	return true
+}
+
 // c15Play runs one scenario once.  vseed selects the concrete bytes (cuts, padding, HPACK table size).
 func c15Play(scn *c15Scn, vseed uint64) (run *c15Run, wires map[string]*c15Wire, mach error) {
 	rnd := rand.New(rand.NewPCG(vseed, 15))
 	opts := c15Opts{rnd: rnd, pad: vseed%2 == 1}
+	refine := vseed%2 == 1
 	switch vseed % 3 {
 	case 1:
 		opts.tableSize = 128
@@ -658,6 +703,24 @@ func c15Play(scn *c15Scn, vseed uint64) (run *c15Run, wires map[string]*c15Wire,
 				to := w.ends[unit[call.D]+call.U-1]
 				unit[call.D] += call.U
 				chunk := w.data[from:to]
+				// The traces depend on the order in which frames are completed only (the theorem of
+				// H2Trace): cutting one call into consecutive calls of the same direction is another
+				// behaviour of the specification with the same handled events.  Some variants do that
+				// at arbitrary byte offsets, so that headers and payloads arrive in many pieces.
+				if refine && len(chunk) > 1 && rnd.IntN(3) > 0 {
+					rest := chunk
+					for len(rest) > 0 {
+						k := 1 + rnd.IntN(len(rest))
+						if rnd.IntN(2) == 0 && k > 3 {
+							k = 1 + rnd.IntN(3)
+						}
+						if !c15OneCall(conn, inner, call.D == readDir, rest[:k], rnd, ci, run) {
+							break
+						}
+						rest = rest[k:]
+					}
+					return
+				}
 				if call.D == readDir {
 					inner.rd, inner.rdErr = append([]byte(nil), chunk...), nil
 					buf := make([]byte, len(chunk)+rnd.IntN(9))
@@ -697,7 +760,7 @@ func c15Play(scn *c15Scn, vseed uint64) (run *c15Run, wires map[string]*c15Wire,
 					run.Transp = append(run.Transp, fmt.Sprintf("call %d Close: err=%v want %v closed=%d", ci, err, inner.closeErr, inner.closed))
 				}
 			case call.E == "readerr":
-				e := &c15EndErr{"readerr"}
+				e := &c15EndErr{kind: "readerr"}
 				endErr = e
 				inner.rd, inner.rdErr = nil, e
 				if rnd.IntN(2) == 0 {
@@ -709,7 +772,7 @@ func c15Play(scn *c15Scn, vseed uint64) (run *c15Run, wires map[string]*c15Wire,
 					run.Transp = append(run.Transp, fmt.Sprintf("call %d Read error: n=%d err=%v", ci, n, err))
 				}
 			case call.E == "writeerr":
-				e := &c15EndErr{"writeerr"}
+				e := &c15EndErr{kind: "writeerr"}
 				endErr = e
 				inner.wrN, inner.wrErr = 0, e
 				n, err := conn.Write([]byte{})
@@ -721,6 +784,15 @@ func c15Play(scn *c15Scn, vseed uint64) (run *c15Run, wires map[string]*c15Wire,
 				// trace of that name arrives at the collector
 				nm := strings.TrimPrefix(call.E, "timer:")
 				timerSeen = true
+				tc.collector.mu.Lock()
+				_, isHeld := tc.collector.waiting[nm]
+				tc.collector.mu.Unlock()
+				if !isHeld {
+					// the specification has a trace held back under that name here; the code has
+					// none, so there is nothing to wait for (the comparison of the traces will show it)
+					run.NotHeld = append(run.NotHeld, nm)
+					return
+				}
 				deadline := time.Now().Add(60 * time.Second)
 				for {
 					coll.mu.Lock()
@@ -945,9 +1017,17 @@ func c15Cause(scn *c15Scn, wires map[string]*c15Wire, run *c15Run, diff c15Diff,
 				alt.Req[i] = c15Frame{T: "OTHER", D: "req", K: "ping", Pu: 2, Bp: []c15Env{}}
 			}
 		}
-		run2, _, err := c15Play(&alt, vseed)
-		if err == nil && run2.Panic == "" && len(run2.Transp)+len(run2.Hdr)+len(run2.Early) == 0 && c15Compare(scn.Exp, run2.Traces).empty() {
-			return "client-goaway-cuts-streams"
+		run2, wires2, err := c15Play(&alt, vseed)
+		if err == nil {
+			diff2 := c15Compare(scn.Exp, run2.Traces)
+			if run2.Panic == "" && len(run2.Transp)+len(run2.Hdr)+len(run2.Early) == 0 && diff2.empty() {
+				return "client-goaway-cuts-streams"
+			}
+			// two mechanisms in one exchange: what is left without the client GOAWAY must be
+			// explained by one of the others
+			if c2 := c15Cause(&alt, wires2, run2, diff2, vseed, true); c2 != "other" {
+				return "client-goaway-cuts-streams+" + c2
+			}
 		}
 	}
 	return "other"
@@ -1102,13 +1182,13 @@ func TestVerifC15Replay(t *testing.T) {
 		scns++
 		if nt || len(scn.Exp) > 0 {
 			nontrivial++
+			k, _ := json.Marshal([]any{scn.Side, scn.Req, scn.Resp, scn.Calls})
+			distinct[string(k)] = true
 		}
-		k, _ := json.Marshal([]any{scn.Side, scn.Req, scn.Resp, scn.Calls})
-		distinct[string(k)] = true
 		mu.Unlock()
 	})
 	out.Put(map[string]any{"summary": true, "scenarios": scns, "evaluations": evals, "nontrivial": nontrivial,
-		"distinct": len(distinct), "mismatches": mismatches, "by_cause": byCause, "machinery_errors": machErrs, "first_machinery_error": firstMach})
+		"distinct_nontrivial": len(distinct), "mismatches": mismatches, "by_cause": byCause, "machinery_errors": machErrs, "first_machinery_error": firstMach})
 	if machErrs > 0 {
 		fmt.Fprintf(os.Stderr, "verif: %d machinery errors, first: %s\n", machErrs, firstMach)
 	}
